@@ -20,7 +20,7 @@ RULE = ('unique-label cut molecules (as C01) whose base graph gets 1-3 fragment-
 ASSUMPTIONS = ['fragment names are unique per coarse node in this workload, so a coarse node is identified by its name']
 MECHANISMS = [('cgsmiles.resolve', 'MoleculeResolver.resolve_disconnected_molecule'), ('cgsmiles.graph_utils', 'annotate_fragments'),
               ('cgsmiles.resolve', 'MoleculeResolver.edges_from_bonding_descrpt')]
-SIZES = {'quick': 3000, 'thorough': 80000}
+SIZES = {'quick': 4000, 'thorough': 80000}
 
 
 def setup():
